@@ -80,6 +80,30 @@ def make_jobs(prop, tier, seed):
     return jobs
 
 
+def bulk_jobs(seed):
+    """One registry, one benchmark, 2^32 (and a little more) real calls: sample_count x sample_size x rounds beyond 32 bits with nothing
+    cutting the run short. Counts only (the body keeps one counter per thread), so the whole run takes seconds."""
+    init_parallelism()
+    rng = random.Random(seed * 7001 + 3)
+    jobs = []
+    for k, (n, s) in enumerate([(16, 1 << 28)]):
+        sp = TG.Spec()
+        sp.clock = (10 ** 9, 1, 1, 1000)
+        sp.clock_os = False
+        b = TG.Bench(0, [sp.crate, "bulk"], "whole", "whole", "src/a.rs", 3, 1, {"sc": n, "ss": s, "th": [0]},
+                     {"cost": 0, "step": 0, "mod": 1, "mode": 0})
+        b.order = 0
+        sp.items = [b]
+        sp.benches = [b]
+        sp.bulk = True
+        cfg = TR.Config()
+        cfg.intent.action = "bench"
+        cfg.cli = ["--bench", "--timer", "tsc"]
+        cfg.job_ref = {"profile": "bulk", "tier": "quick", "seed": seed, "index": k}
+        jobs.append((sp, cfg))
+    return jobs
+
+
 def replay_payload(sp, cfg, res):
     return {"engine": "native", "bin": "treedrv", "spec": res.spec_text, "config": cfg.describe(), "stdout": res.stdout[-6000:], "stderr": res.stderr[-1500:],
             "job": getattr(cfg, "job_ref", None)}
@@ -92,7 +116,7 @@ def run_jobs(prop, jobs, out, want=None, extra=None):
 
     def one(job):
         sp, cfg = job
-        return job, TR.run(exe, sp, cfg)
+        return job, TR.run(exe, sp, cfg, timeout=900 if getattr(sp, "bulk", False) else 120)
 
     with ThreadPoolExecutor(max_workers=NCPU) as ex:
         results = list(ex.map(one, jobs))
@@ -351,7 +375,7 @@ def replay(prop, rp, out):
     job = r.get("job")
     if job:
         # registries and configurations are regenerated deterministically from (profile, tier, seed); run that one job again
-        jobs = make_jobs(job["profile"], job["tier"], job["seed"])
+        jobs = bulk_jobs(job["seed"]) if job["profile"] == "bulk" else make_jobs(job["profile"], job["tier"], job["seed"])
         if job["index"] < len(jobs):
             agg, results, exe = run_jobs(prop, [jobs[job["index"]]], out)
             out.extra["observed"] = agg
